@@ -30,9 +30,9 @@ var levels = map[string]string{
 
 var rules = map[string]string{
 	"C29": "real blocks (real signed txns executed through Chain.UpdateState, real miner key) cloned through the JSON receive path; every single tamper of the effect-relevant field list is applied to every block and Block.ComputeHash / Transaction.VerifyHash / VerifyOutputHash / Block.Validate are observed; distinct = (tamper class, field, variant, detected-by) tuples",
-	"C30": "validly signed transactions (ed25519 and bls0chain, send/data/smart-contract) cloned through the JSON receive path (ComputeProperties) and validated with ValidateWrtTime; every listed field is mutated singly in several value classes with stale and recomputed hash; distinct = (scheme, field, value class, hash variant, outcome) tuples",
-	"C32": "n<=64 (key,message,signature) items fed to BLS0ChainAggregateSignatureScheme with every batch size class, with each corruption pattern (none, single, several, wrong key, wrong message, swapped pair, cancelling pair same/cross batch, cancelling triple) at seeded positions; oracle = conjunction of individual herumi verifications; distinct = (n, batch size, pattern, position class, outcome) tuples",
-	"C33": "real DKG instances (1<=t<=n<=9) installed in a real miner chain; VRF shares (valid, wrong message, wrong signer, other DKG, garbage, duplicates, wrong timeout count) delivered in seeded orders through miner.Chain.AddVRFShare / verifyVRFShare / Round.AddVRFShare / ThresholdNumBLSSigReceived; distinct = (t, n, delivery pattern, outcome) tuples",
+	"C30": "validly signed transactions (ed25519 and bls0chain, send/data/smart-contract) cloned through the JSON receive path (ComputeProperties) and validated with ValidateWrtTime; every listed field is mutated singly in several value classes with stale and recomputed hash; every tampered transaction is also delivered as a block transaction (output + correct output hash) to ValidateWrtTimeForBlock(block time, true/false) and, inside a block of 1..4 transactions received through the block JSON path, to miner.Chain.ValidateTransactions (batch sizes 1, 2, 1000; aggregate signature path for bls0chain); distinct = (path, scheme, field, value class, hash variant, outcome) tuples",
+	"C32": "n<=64 (key,message,signature) items fed to BLS0ChainAggregateSignatureScheme with every batch size class, with each corruption pattern (none, single, several, wrong key, wrong message, swapped pair, cancelling pair same/cross batch, cancelling triple; forged sets that sum to the neutral point: whole set, every batch, one batch, seeded subset, opposite pair same/cross batch; neutral-point signatures: single, one batch, all) at seeded positions, also through miner.Chain.ValidateTransactions and chain.Chain.VerifyTickets; oracle = conjunction of individual herumi verifications; distinct = (n, batch size, pattern, position class, outcome) tuples",
+	"C33": "real DKG instances (1<=t<=n<=9) installed in a real miner chain; VRF shares (valid, wrong message, wrong signer, other DKG, non-member, garbage, duplicates, wrong timeout count) delivered in seeded orders through miner.Chain.AddVRFShare / verifyVRFShare / Round.AddVRFShare / ThresholdNumBLSSigReceived, directly and EARLY (previous round unknown / without seed, timeout count ahead of the round) so that they are parked in the round's share cache and released later; several observers get the same messages in different orders; oracle = every held share verifies under the reference key share, seed only at threshold, seed = seed of the group signature recovered from reference shares, equal for all observers; distinct = (t, n, delivery pattern, outcome) tuples",
 	"C34": "real bls.MakeDKG instances for every 1<=t<=n<=N: all n*n shares validated against the published polynomials, tampered shares rejected, every t-subset of every instance (exhaustive) in several orders recovers one group signature that verifies under the group public key; threshold client keys, split keys, ShareOrSigns.Validate; distinct = (component, t, n, case class, outcome) tuples",
 	"C47": "seeded key pairs for ed25519 and bls0chain: sign/verify, every other key, other hashes, every single-bit flip of signature and public key, empty/short/oversized/non-hex inputs; client id vs sha3-256 computed with x/crypto directly; distinct = (scheme, case class, outcome) tuples",
 }
@@ -126,15 +126,25 @@ func finishParent(run *mon.Run, prop, tier string) {
 	case "C30":
 		run.RequireMin("c30.base_accepted", 20)
 		run.RequireMin("c30.tamper_evaluated", 400)
+		run.RequireMin("c30.block_base_accepted", 20)
+		run.RequireMin("c30.block_tamper_evaluated", 1200)
+		run.Assume("block path: the tampered transaction carries an output and the correct hash of that output, as a generator leaves it; acceptance = block JSON decode (Block.ComputeProperties) succeeds and ValidateWrtTimeForBlock / miner.Chain.ValidateTransactions return nil; with the signature check switched off ValidateWrtTimeForBlock is judged on hash mismatches only (the signature is then owed by the aggregate check inside ValidateTransactions, which is judged on everything)")
 		run.Assume("acceptance = datastore.FromJSON (ComputeProperties) succeeds and ValidateWrtTime returns nil, the pipeline of the transaction receive handlers; fee/nonce/balance admission checks against state are outside this property")
 	case "C32":
 		run.RequireMin("c32.aggregate_evaluated", 150)
 		run.RequireMin("c32.all_valid_accepted", 20)
+		run.RequireMin("c32.pattern.zero-sum-all-forged", 10)
+		run.RequireMin("c32.pattern.opposite-forged-pair", 10)
+		run.RequireMin("c32.pattern.neutral-all", 10)
 		run.Assume("the reference verdict is the conjunction of herumi Sign.Verify per item (trusted library), never the aggregate scheme")
 	case "C33":
 		run.RequireMin("c33.seed_agreement_evaluated", 20)
 		run.RequireMin("c33.invalid_share_evaluated", 40)
 		run.RequireMin("c33.below_threshold_evaluated", 10)
+		run.RequireMin("c33.parked_episode", 12)
+		run.RequireMin("c33.parked_share_counted_from_cache", 20)
+		run.RequireMin("c33.parked_seed_agreement_evaluated", 12)
+		run.Assume("a share is parked through the real Chain.AddVRFShare (previous round unknown or without seed; share timeout count above the round's, raised later with SetTimeoutCount as a received block does); handleVRFShare's own parking of shares for rounds ahead of the current round ends in the same cache and is not driven; a round that holds threshold-many verified shares released from the cache but derives no seed (the releasing message did not verify) is recorded as an observation, liveness is not part of this property")
 		run.Assume("network handlers in front of AddVRFShare (sender must be a miner of the round's magic block) are not driven; block proposal / verification started at threshold is neutralised by moving the chain's current round ahead")
 	case "C34":
 		run.Exhaustive(true) // bound: every t-subset (x3 orders) of every generated DKG / threshold-key instance, all 1<=t<=n<=8 (quick) or 9 (thorough)
